@@ -58,6 +58,7 @@ class ShardResult:
         self.error = None
         self.wall = 0.0
         self.shrink_calls = 0
+        self.counters = {}
 
 
 def _record(sub: Sub, res: ShardResult, spec):
@@ -102,7 +103,7 @@ def run_enum_shard(sub: Sub, tier, shard, nshards, known, seed):
     res = ShardResult()
     t0 = time.time()
     budget = sub.budget_s[tier]
-    cap = sub.n.get(tier) if sub.kind == "enum" and sub.n.get("cap") else None
+    cap = None
     try:
         for i, spec in enumerate(sub.cases(tier)):
             if i % nshards != shard:
@@ -219,10 +220,16 @@ def _shard_entry(args):
     modname, subname, tier, shard, nshards, known, seed = args
     mod = importlib.import_module(modname)
     sub = next(s for s in mod.SUBCHECKS if s.name == subname)
+    from vf import core
+
+    core.COUNTERS.clear()
     try:
         if sub.kind == "enum":
-            return run_enum_shard(sub, tier, shard, nshards, known, seed)
-        return run_hyp_shard(sub, tier, shard, nshards, known, seed)
+            r = run_enum_shard(sub, tier, shard, nshards, known, seed)
+        else:
+            r = run_hyp_shard(sub, tier, shard, nshards, known, seed)
+        r.counters = dict(core.COUNTERS)
+        return r
     except BaseException:  # noqa: BLE001
         r = ShardResult()
         r.error = traceback.format_exc()
@@ -238,6 +245,8 @@ def merge(results):
         out.nontrivial |= r.nontrivial
         out.distinct |= r.distinct
         out.shrink_calls += r.shrink_calls
+        for c, v in r.counters.items():
+            out.counters[c] = out.counters.get(c, 0) + v
         for c, v in r.classes.items():
             out.classes[c] = out.classes.get(c, 0) + v
         out.samples_nt += r.samples_nt
@@ -253,7 +262,7 @@ def merge(results):
 
 
 def save_replay(prop, subname, spec, message, sig):
-    d = os.path.join(HERE, "replays", prop)
+    d = os.path.join(HERE, "replays", prop, "found")
     os.makedirs(d, exist_ok=True)
     path = os.path.join(d, f"{subname.replace('/', '_')}-{spec_hash(spec)}.json")
     with open(path, "w") as f:
@@ -386,6 +395,11 @@ def main(argv=None):
     for sub in subs:
         if sub.serial:
             results[sub.name] = [_shard_entry((modname, sub.name, tier, 0, 1, known, seed))]
+    if hasattr(mod, "TEARDOWN"):
+        try:
+            mod.TEARDOWN()
+        except Exception:  # noqa: BLE001
+            pass
 
     total_eval = 0
     total_nt = 0
@@ -412,6 +426,7 @@ def main(argv=None):
             "excluded_known": {k: v[0] for k, v in m.known.items()},
             "exhaustive": bool(sub.exhaustive and m.skipped_budget == 0),
             "doc": sub.doc,
+            "counters": m.counters,
             "wall_s": round(m.wall, 2),
         }
         if m.error:
